@@ -402,29 +402,36 @@ def Abs.instArgs (a : Abs) (n : Nat) : List (Str × Nat) :=
     else match a.instPkg nd with
       | none => []
       | some d =>
-        (List.zip (List.range d.imports.length) d.imports).filterMap fun (i, (nm, _)) =>
-          (a.arg n i).map fun s => (nm, s)
+        (List.range d.imports.length).filterMap fun i =>
+          match d.imports[i]?, a.arg n i with
+          | some (nm, _), some s => some (nm, s)
+          | _, _ => none
+
+/-- the unsatisfied arguments of an instantiation node, in import order -/
+def Abs.implicitImports (a : Abs) (n : Nat) : List (Str × Kind × Option Nat) :=
+  match a.node n with
+  | some nd =>
+    if nd.isInst then
+      match a.instPkg nd with
+      | some d =>
+        (List.zip (List.range d.imports.length) d.imports).filterMap fun (i, (nm, k)) =>
+          if (a.arg n i).isSome then none else some (nm, k, (none : Option Nat))
+      | none => []
+    else []
+  | none => []
+
+/-- an import node, as `imports()` reports it -/
+def Abs.explicitImport (a : Abs) (n : Nat) : Option (Str × Kind × Option Nat) :=
+  match a.node n with
+  | some nd => match nd.kind with
+    | .import name => some (name, nd.item, some n)
+    | _ => none
+  | none => none
 
 /-- `imports()`: the unsatisfied arguments of the instantiations in node order, then the explicit
     imports in node order -/
 def Abs.importsQuery (a : Abs) : List (Str × Kind × Option Nat) :=
-  (a.nodeIds.flatMap fun n =>
-    match a.node n with
-    | some nd =>
-      if nd.isInst then
-        match a.instPkg nd with
-        | some d =>
-          (List.zip (List.range d.imports.length) d.imports).filterMap fun (i, (nm, k)) =>
-            if (a.arg n i).isSome then none else some (nm, k, (none : Option Nat))
-        | none => []
-      else []
-    | none => []) ++
-  a.nodeIds.filterMap fun n =>
-    match a.node n with
-    | some nd => match nd.kind with
-      | .import name => some (name, nd.item, some n)
-      | _ => none
-    | none => none
+  a.nodeIds.flatMap a.implicitImports ++ a.nodeIds.filterMap a.explicitImport
 
 /-- `get_package_by_name` -/
 def Abs.getPackageByName (a : Abs) (key : PkgKey) : Option PkgId := a.pkgByKey key
